@@ -29,7 +29,7 @@ def c05Spec (kind : String) (data : Obj) : Option Str :=
 def c05Op (args : List String) : String :=
   match run pRenderCase args with
   | some (c, []) =>
-    let env : Env := { partials := c.partials, filters := baseFilters }
+    let env : Env := Env.ofList c.partials baseFilters
     let r := renderTop defaultFuel env c.tmpl c.data
     let specVerdict : Option Bool := (c05Spec c.kind c.data).map fun s => (c.obsTag == "ok" && c.obsPayload == xstr s)
     match specVerdict with
